@@ -184,22 +184,12 @@ structure S where
   fields : List Field
   deriving Repr, Inhabited
 
-mutual
-/-- expand a containing value with the given components -/
-def expandValue (cv : CV) (t : Table) (mesg : Nat) : Nat → S → Value → Nat → List Comp → Option S
-  | 0, s, _, _, _ => some s
-  | fuel + 1, s, v, bt, comps =>
-    if comps.isEmpty then some s
-    else if !(valid v bt) then some s
-    else match container v with
-      | .noBits => some s
-      | .unknown => none
-      | .bits n => slices cv t mesg fuel (comps.length > 1) s n 0 comps
-
-/-- the components in order, `off` = sum of the widths of the earlier ones -/
-def slices (cv : CV) (t : Table) (mesg : Nat) : Nat → Bool → S → Nat → Nat → List Comp → Option S
-  | _, _, s, _, _, [] => some s
-  | fuel, multi, s, n, off, c :: rest =>
+/-- the components in order, `off` = sum of the widths of the earlier ones; `recur` expands the destination's own
+components (one level of nesting further down) -/
+def slicesWith (recur : S → Value → Nat → List Comp → Option S) (cv : CV) (t : Table) (mesg : Nat) :
+    Bool → S → Nat → Nat → List Comp → Option S
+  | _, s, _, _, [] => some s
+  | multi, s, n, off, c :: rest =>
     let raw := sliceAt n off c.bits
     if raw = 0 ∧ multi then some s
     else
@@ -212,10 +202,57 @@ def slices (cv : CV) (t : Table) (mesg : Nat) : Nat → Bool → S → Nat → N
         let comps' := match subFieldOf fields d.subs with
           | some sf => sf.comps
           | none => d.comps
-        match expandValue cv t mesg fuel ⟨runs, fields⟩ value d.base.baseType comps' with
+        match recur ⟨runs, fields⟩ value d.base.baseType comps' with
         | none => none
-        | some s' => slices cv t mesg fuel multi s' n (off + c.bits) rest
-end
+        | some s' => slicesWith recur cv t mesg multi s' n (off + c.bits) rest
+
+/-- expand a containing value with the given components (`fuel` levels of nesting) -/
+def expandValue (cv : CV) (t : Table) (mesg : Nat) : Nat → S → Value → Nat → List Comp → Option S
+  | 0, s, _, _, _ => some s
+  | fuel + 1, s, v, bt, comps =>
+    if comps.isEmpty then some s
+    else if !(valid v bt) then some s
+    else match container v with
+      | .noBits => some s
+      | .unknown => none
+      | .bits n => slicesWith (expandValue cv t mesg fuel) cv t mesg (comps.length > 1) s n 0 comps
+
+def slices (cv : CV) (t : Table) (mesg : Nat) (fuel : Nat) : Bool → S → Nat → Nat → List Comp → Option S :=
+  slicesWith (expandValue cv t mesg fuel) cv t mesg
+
+theorem expandValue_zero_eq (cv : CV) (t : Table) (mesg : Nat) (s : S) (v : Value) (bt : Nat) (comps : List Comp) :
+    expandValue cv t mesg 0 s v bt comps = some s := rfl
+
+theorem expandValue_succ_eq (cv : CV) (t : Table) (mesg fuel : Nat) (s : S) (v : Value) (bt : Nat) (comps : List Comp) :
+    expandValue cv t mesg (fuel + 1) s v bt comps =
+      if comps.isEmpty then some s
+      else if !(valid v bt) then some s
+      else match container v with
+        | .noBits => some s
+        | .unknown => none
+        | .bits n => slices cv t mesg fuel (comps.length > 1) s n 0 comps := rfl
+
+theorem slices_nil_eq (cv : CV) (t : Table) (mesg fuel : Nat) (multi : Bool) (s : S) (n off : Nat) :
+    slices cv t mesg fuel multi s n off [] = some s := rfl
+
+theorem slices_cons_eq (cv : CV) (t : Table) (mesg fuel : Nat) (multi : Bool) (s : S) (n off : Nat) (c : Comp)
+    (rest : List Comp) :
+    slices cv t mesg fuel multi s n off (c :: rest) =
+      (let raw := sliceAt n off c.bits
+      if raw = 0 ∧ multi then some s
+      else
+        match (if c.accumulate then sample s.runs mesg c raw else some (raw, s.runs)) with
+        | none => none
+        | some (T, runs) =>
+          let d := destOf t mesg c.fieldNum
+          let value := convertU32 (cv T c.scale c.offset d.base.scale d.base.offset) d.base.baseType
+          let fields := put s.fields c.fieldNum d value
+          let comps' := match subFieldOf fields d.subs with
+            | some sf => sf.comps
+            | none => d.comps
+          match expandValue cv t mesg fuel ⟨runs, fields⟩ value d.base.baseType comps' with
+          | none => none
+          | some s' => slices cv t mesg fuel multi s' n (off + c.bits) rest) := rfl
 
 /-- nesting allowed to the recursion (the profile nests 3 deep: `C05_profile_depth`) -/
 def depth : Nat := 8
